@@ -62,7 +62,8 @@ def generate(rng, n, tier):
             x = rng.random()
             v = rng.choice([None, 0, 1, 3, rng.randint(0, 50)])
             if x < 0.4:
-                calls.append(["limit", v])
+                # Oracle / MSSQL: the deprecated fetch_next(n) is another spelling of limit(n)
+                calls.append(["fetch_next" if cls in FETCH and kind == "select" and v is not None and rng.random() < 0.3 else "limit", v])
             elif x < 0.75:
                 calls.append(["offset", v])
             elif kind != "update":
@@ -124,7 +125,7 @@ def build_src(case, paginate=True):
 def expected_state(case):
     lim, off = None, None
     for c in case["calls"]:
-        if c[0] == "limit" and c[1] is not None:
+        if c[0] in ("limit", "fetch_next") and c[1] is not None:
             lim = c[1]
         elif c[0] == "offset" and c[1] is not None:
             if case["kind"] != "update":
